@@ -1010,7 +1010,11 @@ class OmniParser(PVLParser):
             c[0] for c in self.grammar.comments if c[1] == "\n"
         )
         spans = None
-        for match in re.finditer(r"-[\n\r\f]\s*", s):
+        # Only what the grammar calls white space is taken off the
+        # beginning of the next line (for the re module, the no-break
+        # space and other characters are white space, too).
+        ws = re.escape("".join(self.grammar.whitespace))
+        for match in re.finditer(rf"-[\n\r\f][{ws}]*", s):
             line = s[s.rfind("\n", 0, match.start()) + 1:match.start()]
             if any(c in line for c in starts):
                 if spans is None:
